@@ -13,6 +13,8 @@ pub struct DropObs {
 /// before.  So that such bytes are recognisable (they follow the fill pattern, like untouched heap bytes),
 /// the stack below the current frame is overwritten with the fill pattern right before the constructing call.
 pub static SCRUB_FILL: core::sync::atomic::AtomicU8 = core::sync::atomic::AtomicU8::new(0);
+/// what the detection hook is set to for the whole run (`--force-off 1`)
+pub static FORCE_OFF_RUN: core::sync::atomic::AtomicBool = core::sync::atomic::AtomicBool::new(false);
 #[inline(never)]
 pub fn scrub() {
     let fill = SCRUB_FILL.load(core::sync::atomic::Ordering::Relaxed);
@@ -50,6 +52,27 @@ pub fn probe<T: Ct>(key: &[u8], fill: u8, route: Route) -> Option<DropObs> {
             let orig = T::new_slice(key).ok()?;
             let other_key: Vec<u8> = key.iter().map(|b| b ^ 0x5A).collect();
             let mut other = T::new_slice(&other_key).ok()?;
+            scrub();
+            if !other.c_clone_from(&orig) {
+                return None;
+            }
+            other
+        }
+        // hook builds: the overwritten instance and the source live in different union arms (the target was built while
+        // detection answered the other way); afterwards the hook is put back to what the run uses
+        Route::CloneFromOntoSoft | Route::CloneFromOntoHw => {
+            if !crate::drivers::special::hook_present() || T::FAMILY != "AES" {
+                return None;
+            }
+            let target_soft = route == Route::CloneFromOntoSoft;
+            let restore = FORCE_OFF_RUN.load(core::sync::atomic::Ordering::Relaxed);
+            crate::drivers::special::set_force_off(!target_soft);
+            let orig = T::new_slice(key).ok();
+            crate::drivers::special::set_force_off(target_soft);
+            let other_key: Vec<u8> = key.iter().map(|b| b ^ 0x5A).collect();
+            let other = T::new_slice(&other_key).ok();
+            crate::drivers::special::set_force_off(restore);
+            let (orig, mut other) = (orig?, other?);
             scrub();
             if !other.c_clone_from(&orig) {
                 return None;
